@@ -22,6 +22,8 @@ FAMILIES = {
     "ScipyGamma": ("scipy:gamma", ["a", "loc", "scale"]),
     "ScipyRayleigh": ("scipy:rayleigh", ["loc", "scale"]),
     "ScipyBeta": ("scipy:beta", ["a", "b", "loc", "scale"]),
+    # only in C11 (spec/ParamRoutingOps.tla VmSubCases): scipy's vonmises wrapped as ScipyDistribution
+    "ScipyVonMises": ("scipy:vonmises", ["kappa", "loc", "scale"]),
 }
 NAMES = {f: v[1] for f, v in FAMILIES.items()}
 
@@ -37,6 +39,7 @@ STORED = {
     "ScipyGamma": dict(a=2.7, loc=0.3, scale=1.45),
     "ScipyRayleigh": dict(loc=0.25, scale=1.85),
     "ScipyBeta": dict(a=2.1, b=3.4, loc=0.15, scale=4.2),
+    "ScipyVonMises": dict(kappa=2.4, loc=0.45, scale=1.0),
 }
 
 
@@ -194,7 +197,7 @@ _RANGE = {
 }
 
 
-EXT_KIND = {"shape": [0.1, 0.3, 0.5, 25.0], "kappa": [0.05, 0.1, 0.3, 45.0], "ratio": [0.05, 0.1, 0.3, 5.0],
+EXT_KIND = {"shape": [0.1, 0.3, 0.5, 25.0], "kappa": [0.05, 0.1, 0.3, 45.0], "ratio": [0.05, 0.1, 0.3, 5.0, 1e-9, 1e-6, 1e-4],
             "scale": [1e-8, 1e8], "logscale": [1e-8, 1e8], "invscale": [1e-8, 1e8]}
 EXT_NAME = {("LogNormal", "sigma"): [0.05, 0.1, 0.3, 4.0]}
 
